@@ -1,6 +1,7 @@
 """C02 - after unsubscribe() returns the subscriber is never called again."""
 from common import *
 import ileave
+import ileave2
 import gen
 import tgen
 import c04
@@ -113,7 +114,8 @@ def run(tier, seed, replay=None):
         cases = load_replay_case(replay)
     else:
         cases = (timed_cases(tier, rng) + chain_cases(tier, rng) + op2_cases(tier, rng) + flatten_cases(tier, rng)
-                 + ileave.cases("subject", tier, rng, "is", only=lambda setup, threads: any("unsub" in t for t in threads)))
+                 + ileave.cases("subject", tier, rng, "is", only=lambda setup, threads: any("unsub" in t for t in threads))
+                 + ileave2.cases(tier, rng, only_unsub=True))
     correspond(rep, "C02", cases, "C02 (silence after unsubscribe: timed_ok / cut specifications / silent_after_unsub)")
     c = rep.coverage
     hist = {}
